@@ -376,3 +376,10 @@ func jsonStr(s string) string {
 	b.WriteByte('"')
 	return b.String()
 }
+
+func mustWriteFile(p, content string) error {
+	if err := os.MkdirAll(filepath.Dir(p), 0o755); err != nil {
+		return err
+	}
+	return os.WriteFile(p, []byte(content), 0o644)
+}
